@@ -5,7 +5,7 @@
     [remove_state], [rename_state], [combine_two_states], [combine_states], [minimize],
     [combine_equivalent_states], [renumber_states], [as_compiled_dfa]) and
     crates/parol/src/utils/mod.rs ([group_by], whose result order is the iteration order of a
-    [HashMap] — an oracle parameter here).
+    [HashMap] — an oracle argument here).
 
     The model is strict: [debug_assert!]s are modelled as panics (the behaviour of a debug/test
     build); a release build would carry on instead. *)
@@ -88,17 +88,21 @@ Definition nb_append (l other : nbs) : nbs :=
 Record adj := mkAdj { a_list : list (N * nbs); a_prods : list (N * Z); a_k : nat }.
 
 (** [impl From<CompiledDFA> for AdjacencyList] *)
+Definition adj_step1 (lp : list (N * nbs) * list (N * Z)) (t : trans)
+  : list (N * nbs) * list (N * Z) :=
+  (bt_insert (t_to t) [] (fst lp), bt_insert (t_to t) (t_prod t) (snd lp)).
+
+(** [if let Some(f) = list.get_mut(&t.from_state) { f.add_neighbor(t.to_state, t.term) }] *)
+Definition adj_step2 (l : list (N * nbs)) (t : trans) : list (N * nbs) :=
+  match bt_get l (t_from t) with
+  | Some nb => bt_insert (t_from t) (add_neighbor (t_to t) (t_tok t) nb) l
+  | None => l
+  end.
+
 Definition adj_of_dfa (d : dfa) : adj :=
-  let l0 := bt_insert 0%N ([] : nbs) [] in
-  let p0 := bt_insert 0%N (prod0 d) [] in
-  let lp := fold_left (fun (lp : list (N * nbs) * list (N * Z)) t =>
-                         (bt_insert (t_to t) [] (fst lp), bt_insert (t_to t) (t_prod t) (snd lp)))
-                      (transitions d) (l0, p0) in
-  let l2 := fold_left (fun l t => match bt_get l (t_from t) with
-                                  | Some nb => bt_insert (t_from t) (add_neighbor (t_to t) (t_tok t) nb) l
-                                  | None => l
-                                  end) (transitions d) (fst lp) in
-  mkAdj l2 (snd lp) (depth d).
+  let lp := fold_left adj_step1 (transitions d)
+                      (bt_insert 0%N ([] : nbs) [], bt_insert 0%N (prod0 d) []) in
+  mkAdj (fold_left adj_step2 (transitions d) (fst lp)) (snd lp) (depth d).
 
 Definition remove_state (a : adj) (id : N) : adj :=
   mkAdj (bt_remove id (a_list a)) (bt_remove id (a_prods a)) (a_k a).
@@ -1201,3 +1205,430 @@ Proof.
   destruct (table_step_rules (tr_sort ts) a W Hin) as [R1 R2].
   intros u p. apply (table_adj_accepts (tr_sort ts) a p0 R1 R2 P0).
 Qed.
+
+(* ------------------------------------------------------------------------------------------- *)
+(** * §5 The conversion into an adjacency list *)
+
+(** Well-formedness of the input of [minimize]: what the trie construction guarantees
+    ([compile_wf_trie] below).  Deterministic; the production number is a function of the target
+    state; the start state is no target; every source state is the start state or a target;
+    accepting states have no way on (this is where prefix-freeness enters: [minimize] merges ALL
+    accepting states of one production, whatever their outgoing transitions). *)
+Definition wf_trie (d : dfa) : Prop :=
+  det (transitions d) /\
+  (forall t1 t2, In t1 (transitions d) -> In t2 (transitions d) ->
+                 t_to t1 = t_to t2 -> t_prod t1 = t_prod t2) /\
+  (forall t, In t (transitions d) -> t_to t <> 0%N) /\
+  (forall t, In t (transitions d) ->
+             t_from t = 0%N \/ exists t', In t' (transitions d) /\ t_to t' = t_from t) /\
+  (forall t t', In t (transitions d) -> In t' (transitions d) ->
+                t_prod t <> INVALID_PROD -> t_from t' <> t_to t) /\
+  (prod0 d <> INVALID_PROD -> transitions d = []).
+
+Definition wf_trieb (d : dfa) : bool :=
+  let ts := transitions d in
+  detb ts &&
+  forallb (fun t1 => forallb (fun t2 => negb (N.eqb (t_to t1) (t_to t2)) || Z.eqb (t_prod t1) (t_prod t2)) ts) ts &&
+  forallb (fun t => negb (N.eqb (t_to t) 0)) ts &&
+  forallb (fun t => N.eqb (t_from t) 0 || existsb (fun t' => N.eqb (t_to t') (t_from t)) ts) ts &&
+  forallb (fun t => Z.eqb (t_prod t) INVALID_PROD
+                    || forallb (fun t' => negb (N.eqb (t_from t') (t_to t))) ts) ts &&
+  (Z.eqb (prod0 d) INVALID_PROD || match ts with [] => true | _ => false end).
+
+Lemma wf_trieb_spec d : wf_trieb d = true -> wf_trie d.
+Proof.
+  unfold wf_trieb, wf_trie. intros H.
+  apply andb_prop in H as [H H6]. apply andb_prop in H as [H H5]. apply andb_prop in H as [H H4].
+  apply andb_prop in H as [H H3]. apply andb_prop in H as [H1 H2].
+  split; [apply detb_spec; exact H1|]. split.
+  { intros t1 t2 I1 I2 E. rewrite forallb_forall in H2. specialize (H2 t1 I1).
+    rewrite forallb_forall in H2. specialize (H2 t2 I2). rewrite E, N.eqb_refl in H2.
+    cbn [negb orb] in H2. apply Z.eqb_eq. exact H2. }
+  split.
+  { intros t I E. rewrite forallb_forall in H3. specialize (H3 t I). rewrite E in H3. discriminate. }
+  split.
+  { intros t I. rewrite forallb_forall in H4. specialize (H4 t I). apply orb_prop in H4 as [A|A].
+    - left. apply N.eqb_eq. exact A.
+    - right. apply existsb_exists in A as (t' & I' & E). exists t'. split; [exact I'|apply N.eqb_eq; exact E]. }
+  split.
+  { intros t t' I I' Hp E. rewrite forallb_forall in H5. specialize (H5 t I). apply orb_prop in H5 as [A|A].
+    - apply Z.eqb_eq in A. contradiction.
+    - rewrite forallb_forall in A. specialize (A t' I'). rewrite E, N.eqb_refl in A. discriminate. }
+  intros Hp. apply orb_prop in H6 as [A|A]; [apply Z.eqb_eq in A; contradiction|].
+  destruct (transitions d); [reflexivity|discriminate].
+Qed.
+
+Definition last_to {X} (f : trans -> X) (ts : list trans) (s : N) (dflt : option X) : option X :=
+  fold_left (fun acc t => if N.eqb (t_to t) s then Some (f t) else acc) ts dflt.
+
+Lemma last_to_none {X} (f : trans -> X) s : forall ts dflt,
+  (forall t, In t ts -> t_to t <> s) -> last_to f ts s dflt = dflt.
+Proof.
+  unfold last_to. induction ts as [|t ts IH]; intros dflt H; cbn [fold_left]; [reflexivity|].
+  destruct (N.eqb_spec (t_to t) s) as [E|E]; [exfalso; apply (H t (or_introl eq_refl) E)|].
+  apply IH. intros t' Ht'. apply H. right. exact Ht'.
+Qed.
+
+Lemma last_to_some {X} (f : trans -> X) s : forall ts dflt t,
+  In t ts -> t_to t = s ->
+  exists t', In t' ts /\ t_to t' = s /\ last_to f ts s dflt = Some (f t').
+Proof.
+  induction ts as [|t0 ts IH]; intros dflt t Hin E; [destruct Hin|].
+  destruct (existsb (fun t' => N.eqb (t_to t') s) ts) eqn:Ex.
+  - apply existsb_exists in Ex as (t1 & I1 & E1). apply N.eqb_eq in E1.
+    destruct (IH (if N.eqb (t_to t0) s then Some (f t0) else dflt) t1 I1 E1) as (t' & I' & E' & L).
+    exists t'. split; [right; exact I'|]. split; [exact E'|exact L].
+  - assert (Hn : forall t', In t' ts -> t_to t' <> s).
+    { intros t' I' E'. assert (X0 : existsb (fun t' => N.eqb (t_to t') s) ts = true).
+      { apply existsb_exists. exists t'. split; [exact I'|apply N.eqb_eq; exact E']. }
+      congruence. }
+    destruct Hin as [->|Hin]; [|exfalso; apply (Hn t Hin E)].
+    exists t. split; [left; reflexivity|]. split; [exact E|].
+    unfold last_to. cbn [fold_left]. rewrite E, N.eqb_refl. apply (last_to_none f s ts _ Hn).
+Qed.
+
+Lemma step1_get : forall ts lp s,
+  bt_get (fst (fold_left adj_step1 ts lp)) s = last_to (fun _ => ([] : nbs)) ts s (bt_get (fst lp) s) /\
+  bt_get (snd (fold_left adj_step1 ts lp)) s = last_to t_prod ts s (bt_get (snd lp) s).
+Proof.
+  unfold last_to. induction ts as [|t ts IH]; intros lp s; cbn [fold_left]; [auto|].
+  destruct (IH (adj_step1 lp t) s) as [A B]. rewrite A, B. unfold adj_step1. cbn [fst snd].
+  rewrite !bt_get_insert. auto.
+Qed.
+
+Lemma step1_sorted : forall ts lp,
+  ksorted (fst lp) -> ksorted (snd lp) ->
+  ksorted (fst (fold_left adj_step1 ts lp)) /\ ksorted (snd (fold_left adj_step1 ts lp)).
+Proof.
+  induction ts as [|t ts IH]; intros lp A B; cbn [fold_left]; [auto|].
+  apply IH; unfold adj_step1; cbn [fst snd]; apply ksorted_insert; assumption.
+Qed.
+
+Lemma add_neighbor_in id term nb x : In x (add_neighbor id term nb) <-> In x nb \/ x = (id, term).
+Proof.
+  unfold add_neighbor. rewrite nb_sort_in, in_app_iff. cbn [In]. intuition.
+Qed.
+
+Lemma step2_get : forall ts l s,
+  match bt_get l s with
+  | None => bt_get (fold_left adj_step2 ts l) s = None
+  | Some nb0 => exists nb', bt_get (fold_left adj_step2 ts l) s = Some nb' /\
+                 forall x, In x nb' <-> In x nb0 \/
+                           exists t, In t ts /\ t_from t = s /\ x = (t_to t, t_tok t)
+  end.
+Proof.
+  induction ts as [|t ts IH]; intros l s; cbn [fold_left].
+  - destruct (bt_get l s) as [nb0|]; [|reflexivity]. exists nb0. split; [reflexivity|].
+    intros x. split; [auto|]. intros [H|(t & [] & _)]. exact H.
+  - specialize (IH (adj_step2 l t) s). unfold adj_step2 at 1 3 in IH. unfold adj_step2 at 2.
+    destruct (bt_get l (t_from t)) as [nb|] eqn:Gf.
+    + rewrite bt_get_insert in IH. destruct (N.eqb_spec (t_from t) s) as [E|E].
+      * subst s. rewrite Gf. destruct IH as (nb' & G' & X'). exists nb'. split; [exact G'|].
+        intros x. rewrite X', add_neighbor_in. split.
+        -- intros [[H|H]|(t' & I' & E' & H)]; [left; exact H|right; exists t; split; [left; reflexivity|auto]|].
+           right. exists t'. split; [right; exact I'|auto].
+        -- intros [H|(t' & [<-|I'] & E' & H)]; [left; left; exact H|left; right; exact H|].
+           right. exists t'. auto.
+      * destruct (bt_get l s) as [nb0|]; [|exact IH]. destruct IH as (nb' & G' & X').
+        exists nb'. split; [exact G'|]. intros x. rewrite X'. split.
+        -- intros [H|(t' & I' & E' & H)]; [left; exact H|right; exists t'; split; [right; exact I'|auto]].
+        -- intros [H|(t' & [<-|I'] & E' & H)]; [left; exact H|contradiction|right; exists t'; auto].
+    + destruct (bt_get l s) as [nb0|] eqn:Gs; [|exact IH]. destruct IH as (nb' & G' & X').
+      exists nb'. split; [exact G'|]. intros x. rewrite X'. split.
+      * intros [H|(t' & I' & E' & H)]; [left; exact H|right; exists t'; split; [right; exact I'|auto]].
+      * intros [H|(t' & [<-|I'] & E' & H)]; [left; exact H|congruence|right; exists t'; auto].
+Qed.
+
+Lemma step2_sorted : forall ts l, ksorted l -> ksorted (fold_left adj_step2 ts l).
+Proof.
+  induction ts as [|t ts IH]; intros l S; cbn [fold_left]; [exact S|]. apply IH.
+  unfold adj_step2. destruct (bt_get l (t_from t)); [apply ksorted_insert; exact S|exact S].
+Qed.
+
+Lemma adj_of_dfa_spec d :
+  wf_trie d ->
+  awf (adj_of_dfa d) /\ (forall u p, accepts d u p <-> aaccepts (adj_of_dfa d) u p) /\
+  a_k (adj_of_dfa d) = depth d.
+Proof.
+  intros (Hdet & Hcons & Hnz & Hsrc & Hleaf & Hp0).
+  set (ts := transitions d) in *.
+  set (lp := fold_left adj_step1 ts (bt_insert 0%N ([] : nbs) [], bt_insert 0%N (prod0 d) [])).
+  assert (Ea : adj_of_dfa d = mkAdj (fold_left adj_step2 ts (fst lp)) (snd lp) (depth d)) by reflexivity.
+  set (a := adj_of_dfa d) in *.
+  assert (F1 : forall s, bt_get (fst lp) s =
+                 last_to (fun _ => ([] : nbs)) ts s (if N.eqb 0 s then Some [] else None)).
+  { intros s. subst lp. rewrite (proj1 (step1_get ts _ s)). cbn [fst]. rewrite bt_get_insert. reflexivity. }
+  assert (F2 : forall s, bt_get (snd lp) s =
+                 last_to t_prod ts s (if N.eqb 0 s then Some (prod0 d) else None)).
+  { intros s. subst lp. rewrite (proj2 (step1_get ts _ s)). cbn [snd]. rewrite bt_get_insert. reflexivity. }
+  assert (Hhit : forall s, (exists t, In t ts /\ t_to t = s) \/ (forall t, In t ts -> t_to t <> s)).
+  { intros s. destruct (existsb (fun t => N.eqb (t_to t) s) ts) eqn:Ex.
+    - left. apply existsb_exists in Ex as (t & I & E). exists t. split; [exact I|apply N.eqb_eq; exact E].
+    - right. intros t I E. assert (X : existsb (fun t => N.eqb (t_to t) s) ts = true).
+      { apply existsb_exists. exists t. split; [exact I|apply N.eqb_eq; exact E]. }
+      congruence. }
+  assert (K1 : forall s, (s = 0%N \/ exists t, In t ts /\ t_to t = s) -> bt_get (fst lp) s = Some []).
+  { intros s Hk. rewrite F1. destruct (Hhit s) as [(t & I & E)|Hn].
+    - destruct (last_to_some (fun _ => ([] : nbs)) s ts (if N.eqb 0 s then Some [] else None) t I E) as (t' & _ & _ & L).
+      exact L.
+    - rewrite (last_to_none _ s ts _ Hn). destruct Hk as [->|(t & I & E)]; [reflexivity|].
+      exfalso. apply (Hn t I E). }
+  assert (K1n : forall s, bt_get (fst lp) s <> None -> s = 0%N \/ exists t, In t ts /\ t_to t = s).
+  { intros s H. destruct (Hhit s) as [Hy|Hn]; [right; exact Hy|]. left.
+    rewrite F1, (last_to_none _ s ts _ Hn) in H. destruct (N.eqb_spec 0 s); [auto|congruence]. }
+  assert (K2 : forall t, In t ts -> bt_get (snd lp) (t_to t) = Some (t_prod t)).
+  { intros t I. rewrite F2.
+    destruct (last_to_some t_prod (t_to t) ts (if N.eqb 0 (t_to t) then Some (prod0 d) else None) t I eq_refl)
+      as (t' & I' & E' & L).
+    rewrite L. f_equal. apply (Hcons t' t I' I E'). }
+  assert (K2z : bt_get (snd lp) 0%N = Some (prod0 d)).
+  { rewrite F2, (last_to_none _ 0%N ts _ Hnz). reflexivity. }
+  assert (K2n : forall s, bt_get (snd lp) s <> None -> s = 0%N \/ exists t, In t ts /\ t_to t = s).
+  { intros s H. destruct (Hhit s) as [Hy|Hn]; [right; exact Hy|]. left.
+    rewrite F2, (last_to_none _ s ts _ Hn) in H. destruct (N.eqb_spec 0 s); [auto|congruence]. }
+  assert (Hlist : forall s, bt_get (a_list a) s =
+            match bt_get (fst lp) s with None => None | Some _ => bt_get (a_list a) s end /\
+            (bt_get (fst lp) s <> None ->
+             exists nb', bt_get (a_list a) s = Some nb' /\
+               forall x, In x nb' <-> exists t, In t ts /\ t_from t = s /\ x = (t_to t, t_tok t))).
+  { intros s. rewrite Ea. cbn [a_list]. assert (G := step2_get ts (fst lp) s).
+    destruct (bt_get (fst lp) s) as [nb0|] eqn:G0.
+    - split; [reflexivity|]. intros _. destruct G as (nb' & G' & X'). exists nb'. split; [exact G'|].
+      intros x. rewrite X'. assert (nb0 = []).
+      { assert (Hk : bt_get (fst lp) s <> None) by congruence. apply K1n in Hk. apply K1 in Hk. congruence. }
+      subst nb0. split; [intros [[]|H]; exact H|auto].
+    - split; [exact G|congruence]. }
+  assert (Hedge : forall s c t', aedge a s c t' <->
+                    exists t, In t ts /\ t_from t = s /\ t_tok t = c /\ t_to t = t').
+  { intros s c t'. unfold aedge. split.
+    - intros (nb & G & Hin). destruct (Hlist s) as [A B].
+      destruct (bt_get (fst lp) s) eqn:G0; [|congruence].
+      destruct (B ltac:(discriminate)) as (nb' & G' & X'). rewrite G in G'. inversion G'; subst nb'.
+      apply X' in Hin as (t & I & E & Ex). inversion Ex. exists t. auto.
+    - intros (t & I & E1 & E2 & E3). destruct (Hlist s) as [_ B].
+      assert (Hk : bt_get (fst lp) s <> None).
+      { rewrite K1; [discriminate|]. destruct (Hsrc t I) as [Z|(t0 & I0 & E0)]; [left; congruence|].
+        right. exists t0. split; [exact I0|congruence]. }
+      destruct (B Hk) as (nb' & G' & X'). exists nb'. split; [exact G'|]. apply X'. exists t.
+      split; [exact I|]. split; [exact E1|]. congruence. }
+  assert (Hkey : forall s, akey a s <-> (s = 0%N \/ exists t, In t ts /\ t_to t = s)).
+  { intros s. unfold akey. destruct (Hlist s) as [A B]. split.
+    - intros H. apply K1n. intros G0. rewrite G0 in A. congruence.
+    - intros Hk. assert (G0 := K1 s Hk). destruct (B ltac:(congruence)) as (nb' & G' & _). congruence. }
+  assert (W : awf a).
+  { constructor.
+    - rewrite Ea. cbn [a_list]. apply step2_sorted.
+      apply (step1_sorted ts _); cbn [fst snd]; apply ksorted_insert; constructor.
+    - rewrite Ea. cbn [a_prods].
+      apply (step1_sorted ts _); cbn [fst snd]; apply ksorted_insert; constructor.
+    - intros s. fold (akey a s). rewrite Hkey. rewrite Ea. cbn [a_prods]. split.
+      + intros [->|(t & I & <-)]; [rewrite K2z; discriminate|rewrite (K2 t I); discriminate].
+      + apply K2n.
+    - apply Hkey. left. reflexivity.
+    - intros s c t1 t2 E1 E2. apply Hedge in E1 as (x1 & I1 & A1 & B1 & <-).
+      apply Hedge in E2 as (x2 & I2 & A2 & B2 & <-).
+      rewrite (Hdet x1 x2 I1 I2); congruence.
+    - intros s c t' E. apply Hedge in E as (t & I & _ & _ & <-). apply Hkey. right. exists t. auto.
+    - intros s p nb P Hp G. destruct nb as [|[t' c] nb]; [reflexivity|exfalso].
+      assert (E : aedge a s c t') by (exists ((t', c) :: nb); split; [exact G|left; reflexivity]).
+      apply Hedge in E as (x & Ix & Ex & _ & _). unfold aprod in P. rewrite Ea in P. cbn [a_prods] in P.
+      destruct (Hhit s) as [(t & I & E)|Hn].
+      + rewrite <- E, (K2 t I) in P. inversion P; subst p. apply (Hleaf t x I Ix Hp). congruence.
+      + rewrite F2, (last_to_none _ s ts _ Hn) in P. destruct (N.eqb_spec 0 s) as [Z|Z]; [|discriminate].
+        inversion P; subst p. rewrite (Hp0 Hp) in Ix. destruct Ix. }
+  split; [exact W|]. split; [|rewrite Ea; reflexivity].
+  assert (Hin : forall t, In t ts <->
+             aedge a (t_from t) (t_tok t) (t_to t) /\ aprod a (t_to t) = Some (t_prod t)).
+  { intros t. split.
+    - intros I. split; [apply Hedge; exists t; auto|]. unfold aprod. rewrite Ea. cbn [a_prods]. apply (K2 t I).
+    - intros [E P]. apply Hedge in E as (x & Ix & A & B & C). unfold aprod in P. rewrite Ea in P. cbn [a_prods] in P.
+      rewrite <- C, (K2 x Ix) in P. inversion P as [D].
+      destruct t as [f c to q], x as [f' c' to' q']. cbn [t_from t_tok t_to t_prod] in *. subst. exact Ix. }
+  destruct (table_step_rules ts a W Hin) as [R1 R2].
+  assert (R3 : aprod a 0%N = Some (prod0 d)) by (unfold aprod; rewrite Ea; cbn [a_prods]; exact K2z).
+  intros u p. rewrite <- (table_adj_accepts ts a (prod0 d) R1 R2 R3 (depth d) u p).
+  destruct d as [p0' ts' k']. reflexivity.
+Qed.
+
+(* ------------------------------------------------------------------------------------------- *)
+(** * §6 Main theorems *)
+
+(** [minimize_preserves_accepts], for every oracle.  [minimize] returns a [res]; the statement is
+    about every successful run (see the note on totality at the end of the file). *)
+Theorem minimize_preserves_accepts o d d' :
+  wf_trie d -> minimize o d = Ok d' -> forall u p, accepts d' u p <-> accepts d u p.
+Proof.
+  intros Wd H u p. unfold minimize in H.
+  destruct (minimize_adj o (adj_of_dfa d)) as [a'| | | |] eqn:M; try discriminate. cbn [bind] in H.
+  destruct (adj_of_dfa_spec d Wd) as (W & E & _).
+  destruct (minimize_adj_hom o _ _ W M) as (W' & E' & _).
+  destruct (as_compiled_spec a' d' W' H) as (E'' & _ & _).
+  rewrite (E'' u p), (E' u p). symmetry. apply E.
+Qed.
+
+(** [minimize_sorted]: unconditional — the last step is a sort by (from-state, terminal). *)
+Theorem minimize_sorted o d d' : minimize o d = Ok d' -> sorted (transitions d').
+Proof.
+  unfold minimize, as_compiled_dfa. intros H.
+  destruct (minimize_adj o (adj_of_dfa d)) as [a'| | | |]; try discriminate. cbn [bind] in H.
+  destruct (all_transitions (a_prods a') (a_list a')) as [ts| | | |]; try discriminate. cbn [bind] in H.
+  destruct (bt_get (a_prods a') 0%N); [|discriminate]. inversion H; subst. apply tr_sort_sorted.
+Qed.
+
+Theorem minimize_depth o d d' : wf_trie d -> minimize o d = Ok d' -> depth d' = depth d.
+Proof.
+  intros Wd H. unfold minimize in H.
+  destruct (minimize_adj o (adj_of_dfa d)) as [a'| | | |] eqn:M; try discriminate. cbn [bind] in H.
+  destruct (adj_of_dfa_spec d Wd) as (W & _ & K).
+  destruct (minimize_adj_hom o _ _ W M) as (W' & _ & K').
+  destruct (as_compiled_spec a' d' W' H) as (_ & _ & K''). congruence.
+Qed.
+
+Lemma minimize_no_transitions o p0 k d' :
+  minimize o (mkDfa p0 [] k) = Ok d' -> d' = mkDfa p0 [] k.
+Proof.
+  unfold minimize, minimize_adj, adj_of_dfa, final_states.
+  cbn [transitions prod0 depth fold_left fst snd a_prods a_list bt_insert bt_remove bt_put filter].
+  destruct (Z.eqb p0 INVALID_PROD) eqn:E; cbn [negb filter].
+  - cbn. rewrite E. cbn. intros H. inversion H. reflexivity.
+  - unfold group_by, group_fold. cbn [fold_left grp_push permute length snd map].
+    rewrite Nat.mod_1_r. cbn. rewrite E. cbn. intros H. inversion H. reflexivity.
+Qed.
+
+Theorem minimize_wfd o d d' : wf_trie d -> minimize o d = Ok d' -> wfd d' = true.
+Proof.
+  intros Wd H. unfold wfd. destruct (valid (prod0 d')) eqn:V; [|reflexivity].
+  assert (A : accepts d' [] (prod0 d')) by (exists 0%N; split; [reflexivity|exact V]).
+  apply (minimize_preserves_accepts o d d' Wd H) in A. destruct A as (s & R & _).
+  cbn [run] in R. injection R as Es P.
+  destruct Wd as (_ & _ & _ & _ & _ & Hp0).
+  assert (Hts : transitions d = []).
+  { apply Hp0. rewrite P. intros E. rewrite E in V. discriminate. }
+  destruct d as [p0 ts k]. cbn [transitions] in Hts. subst ts.
+  rewrite (minimize_no_transitions o p0 k d' H). reflexivity.
+Qed.
+
+(* ------------------------------------------------------------------------------------------- *)
+(** * §7 The un-minimised automaton of a family is a well-formed input; end-to-end theorem *)
+
+Lemma compile_raw_trans_in d0 t :
+  In t (transitions (compile_raw d0)) <->
+  In (t_from t, t_tok t, t_to t) (flat (la_trans d0)) /\ t_prod t = state_prod d0 (t_to t).
+Proof.
+  cbn [compile_raw transitions]. split.
+  - intros H. apply in_flat_map in H as (g & Hg & H). unfold conv_group in H.
+    apply in_map_iff in H as (x & <- & Hx). apply (proj1 (sort_term_in _ _)) in Hx.
+    cbn [t_from t_tok t_to t_prod]. split; [|reflexivity]. apply (group_in_flat _ g x Hg Hx).
+  - intros [H P]. apply flat_in_group in H as (g & Hg & Ef & Hx). apply in_flat_map. exists g.
+    split; [exact Hg|]. unfold conv_group. apply in_map_iff. exists (t_tok t, t_to t).
+    split; [|apply sort_term_in; exact Hx]. cbn [fst snd]. destruct t as [f c to q].
+    cbn [t_from t_tok t_to t_prod] in *. subst. reflexivity.
+Qed.
+
+Lemma state_prod_ne d s : state_prod d s <> INVALID_PROD -> valid (state_prod d s) = true.
+Proof.
+  unfold state_prod. destruct (nth_error (la_states d) (N.to_nat s)) as [p|]; [|congruence].
+  destruct (valid p) eqn:V; [auto|congruence].
+Qed.
+
+Theorem compile_wf_trie fam d : fam_ok fam -> compile fam = Ok d -> wf_trie d.
+Proof.
+  intros Hok H. assert (Hwfd := compile_wfd fam d Hok H). destruct Hok as (Hne & Hdet & _).
+  destruct fam as [|e fam']; [congruence|].
+  destruct (la_of_family_spec e fam' Hdet) as (d0 & paths & E & F & K).
+  unfold compile in H. rewrite E in H. cbn [bind] in H. inversion H; subst d. clear H.
+  assert (I := fi_t _ _ _ F). set (ts := transitions (compile_raw d0)) in *.
+  assert (Hin : forall t, In t ts -> In (t_from t, t_tok t, t_to t) (flat (la_trans d0)) /\
+                                     t_prod t = state_prod d0 (t_to t)).
+  { intros t Ht. apply compile_raw_trans_in. exact Ht. }
+  unfold wf_trie. fold ts. split; [|split; [|split; [|split; [|split]]]].
+  - intros x y Hx Hy Ef Et. destruct (Hin x Hx) as [Fx Px]. destruct (Hin y Hy) as [Fy Py].
+    apply (tinv_det _ _ _ _ _ _ I) in Fx. apply (tinv_det _ _ _ _ _ _ I) in Fy.
+    rewrite Ef, Et in Fx. rewrite Fx in Fy. inversion Fy as [Eto].
+    destruct x as [f c to q], y as [f' c' to' q']. cbn [t_from t_tok t_to t_prod] in *. congruence.
+  - intros t1 t2 H1 H2 Eto. rewrite (proj2 (Hin t1 H1)), (proj2 (Hin t2 H2)), Eto. reflexivity.
+  - intros t Ht Eto. destruct (Hin t Ht) as [Ft _].
+    destruct (ti_sound _ _ _ I _ _ _ Ft) as (w & _ & Hw). rewrite Eto in Hw.
+    rewrite (ti_root _ _ _ I : npath paths 0%N = Some []) in Hw. inversion Hw as [Ew].
+    destruct w; discriminate.
+  - intros t Ht. destruct (Hin t Ht) as [Ft _].
+    destruct (ti_sound _ _ _ I _ _ _ Ft) as (w & Hw & _).
+    induction w as [|c' w' _] using rev_ind.
+    + left. apply (npath_inj paths (t_from t) 0%N [] (ti_nodup _ _ _ I) Hw). apply (ti_root _ _ _ I).
+    + right. destruct (ti_complete _ _ _ I _ _ _ Hw) as (f' & _ & G). apply tr_get_in in G.
+      exists (mkTrans f' c' (t_from t) (state_prod d0 (t_from t))). split; [|reflexivity].
+      apply compile_raw_trans_in. cbn [t_from t_tok t_to t_prod]. auto.
+  - intros t t' Ht Ht' Hp Efrom. destruct (Hin t Ht) as [Ft Pt]. destruct (Hin t' Ht') as [Ft' _].
+    rewrite Pt in Hp. apply state_prod_ne in Hp.
+    destruct (ti_sound _ _ _ I _ _ _ Ft) as (w & _ & Hw).
+    destruct (ti_sound _ _ _ I _ _ _ Ft') as (w2 & Hw2 & Hw2').
+    rewrite Efrom, Hw in Hw2. inversion Hw2; subst w2.
+    assert (L : In (state_prod d0 (t_to t), w ++ [t_tok t]) (entries (e :: fam'))).
+    { apply (fi_lang _ _ _ F). apply la_lang_N. exists (t_to t). split; [exact Hw|].
+      apply state_prod_valid. auto. }
+    apply npath_in in Hw2'. destruct (fi_paths _ _ _ F _ Hw2') as [Hnil|(q & v & Hv & (r & Hr))].
+    + destruct (w ++ [t_tok t]); discriminate.
+    + destruct Hdet as [_ Hd2].
+      destruct (Hd2 _ _ _ _ L Hv) as [Ev _].
+      { exists ([t_tok t'] ++ r). rewrite Hr, <- !app_assoc. reflexivity. }
+      rewrite <- Ev in Hr. apply (f_equal (@length N)) in Hr. rewrite !app_length in Hr. cbn [length] in Hr. lia.
+  - intros Hp. unfold wfd in Hwfd. cbn [compile_raw prod0] in Hp, Hwfd. apply state_prod_ne in Hp.
+    rewrite Hp in Hwfd. fold ts in Hwfd. destruct ts; [reflexivity|discriminate].
+Qed.
+
+(** End to end: the compiled AND minimised automaton of a deterministic family, for every oracle. *)
+Theorem compile_min_exact o fam d' :
+  fam_ok fam -> compile_min o fam = Ok d' ->
+  (forall u p, accepts d' u p <-> In u (strings_of fam p)) /\
+  sorted (transitions d') /\ wfd d' = true /\ depth d' = fam_max_len fam.
+Proof.
+  intros Hok H. unfold compile_min in H. destruct (trie_exact fam Hok) as (d & Ed & Hd).
+  rewrite Ed in H. cbn [bind] in H. assert (Wd := compile_wf_trie fam d Hok Ed).
+  split; [|split; [|split]].
+  - intros u p. rewrite (minimize_preserves_accepts o d d' Wd H u p). apply Hd.
+  - apply (minimize_sorted o d d' H).
+  - apply (minimize_wfd o d d' Wd H).
+  - rewrite (minimize_depth o d d' Wd H). apply (compile_depth fam d Hok Ed).
+Qed.
+
+(** Consequently the checker of LaTrie.v accepts nothing but what the model produces… the other
+    way round, on examples: the model's output passes the checkers. *)
+Example compile_min_checks :
+  forall o, In o [o_id; o_rev; o_mix] ->
+  match compile_min o depth_fam with
+  | Ok d => la_dfa_check d depth_fam [5; 6]%N = true /\ la_depth_check d depth_fam = true
+  | _ => False
+  end.
+Proof. intros o [<-|[<-|[<-|[]]]]; vm_compute; split; reflexivity. Qed.
+
+(** Hypotheses are satisfiable: the unit-test inputs are well-formed tries. *)
+Example wf_trie_ex :
+  wf_trie test_minimize_in /\ wf_trie test_renumber_in /\ wf_trie test_complete_in /\ wf_trie d2_dfa.
+Proof. repeat split; apply wf_trieb_spec; vm_compute; reflexivity. Qed.
+
+(** [minimize] merges ALL accepting states of one production — also those that have a way on.
+    On an automaton whose accepting inner state has a transition (the result of [unite] on a
+    family that is not prefix-free, [unite_coins_inner_state]) it changes the language:
+    {2: [a b], 1: [a]} plus production 1 on [c]: after merging the two 1-states, [c b] predicts 2. *)
+Definition not_leaf_dfa : dfa :=
+  mkDfa (-1) [ mkTrans 0 5 1 1; mkTrans 0 7 3 1; mkTrans 1 6 2 2 ] 2.
+
+Theorem minimize_needs_leaves_refuted :
+  exists o d d' u p, minimize o d = Ok d' /\ acceptsb d u p = false /\ acceptsb d' u p = true.
+Proof.
+  exists o_id, not_leaf_dfa. eexists. exists [7; 6]%N, 2%Z.
+  split; [vm_compute; reflexivity|]. split; vm_compute; reflexivity.
+Qed.
+
+(** ** Note on totality.  Not proved: [minimize_total : wf_trie d -> exists d', minimize o d = Ok d']
+    (no panic of the strict model and sufficiency of the fuel of [combine_equivalent_states]
+    and [renumber_states]).  Evidence by computation only: the four unit tests above for three
+    oracles, and [compile_min_checks]. *)
+
+Print Assumptions minimize_preserves_accepts.
+Print Assumptions minimize_sorted.
+Print Assumptions minimize_depth.
+Print Assumptions minimize_wfd.
+Print Assumptions compile_wf_trie.
+Print Assumptions compile_min_exact.
+Print Assumptions minimize_needs_leaves_refuted.
